@@ -116,20 +116,39 @@ func (s *Sess) CreatePDR(req *ie.IE) error {
 				break
 			}
 			urrids[v] = struct{}{}
-			urrInfo, ok := s.URRIDs[v]
-			if ok {
-				urrInfo.refPdrNum++
-			}
 		}
 	}
 
-	s.PDRIDs[pdrid] = &PDRInfo{
-		RelatedURRIDs: urrids,
+	old, existed := s.PDRIDs[pdrid]
+	if !existed {
+		// recorded before the driver call, so that a failed create is cleaned up later
+		s.PDRIDs[pdrid] = &PDRInfo{
+			RelatedURRIDs: make(map[uint32]struct{}),
+		}
 	}
 
 	err = s.rnode.driver.CreatePDR(s.LocalID, req)
 	if err != nil {
+		// nothing was installed (e.g. the PDR exists already): the URRs of the
+		// installed PDR, if any, stay the ones it refers to
 		return err
+	}
+
+	// the PDR is installed with this request's URR list
+	if existed {
+		for urrid := range old.RelatedURRIDs {
+			if urrInfo, ok := s.URRIDs[urrid]; ok && urrInfo.refPdrNum > 0 {
+				urrInfo.refPdrNum--
+			}
+		}
+	}
+	for urrid := range urrids {
+		if urrInfo, ok := s.URRIDs[urrid]; ok {
+			urrInfo.refPdrNum++
+		}
+	}
+	s.PDRIDs[pdrid] = &PDRInfo{
+		RelatedURRIDs: urrids,
 	}
 
 	return nil
